@@ -120,7 +120,8 @@ func (cj *CookieJar) Set(uri *fasthttp.URI, cookies ...*fasthttp.Cookie) {
 //
 // CookieJar stores copies of the provided cookies, so they may be safely released after use.
 func (cj *CookieJar) SetByHost(host []byte, cookies ...*fasthttp.Cookie) {
-	hostStr := utils.UnsafeString(host)
+	// the key lookups use: the host without port, as a string that owns its memory
+	hostStr := hostKey(host)
 
 	cj.mu.Lock()
 	defer cj.mu.Unlock()
@@ -129,11 +130,7 @@ func (cj *CookieJar) SetByHost(host []byte, cookies ...*fasthttp.Cookie) {
 		cj.hostCookies = make(map[string][]*fasthttp.Cookie)
 	}
 
-	hostCookies, ok := cj.hostCookies[hostStr]
-	if !ok {
-		// If the key does not exist in the map, make a copy to avoid unsafe usage.
-		hostStr = string(host)
-	}
+	hostCookies := cj.hostCookies[hostStr]
 
 	for _, cookie := range cookies {
 		existing := searchCookieByKeyAndPath(cookie.Key(), cookie.Path(), hostCookies)
